@@ -276,6 +276,16 @@ def sane_run(ctx, c, prop):
     return True
 
 
+def runner_crash(c):
+    """a traceback of the runner itself (not of a test) in the output of the run: its last line, or None"""
+    for stream in (c.obs.stderr, c.obs.stdout):
+        if "Traceback (most recent call last)" in stream:
+            for b in stream.split("Traceback (most recent call last)")[1:]:
+                if "zope/testrunner/__init__.py" in b and "run_internal" in b:
+                    return b.strip().split("\n")[-1][:200]
+    return None
+
+
 def describe(c):
     w = c.world
     return {"layers": len(w["layers"]), "tests": len(w["tests"]),
@@ -310,6 +320,10 @@ def standard_check_after_real(ctx, cases, prop, kinds, component, monitor, extra
             ctx.violation(desc + " (opts %r)" % d["opts"], c.replay_obj(), signature=sig)
             if not sig.startswith("known:"):
                 continue
+        if c.opts.get("post_mortem"):
+            # -D runs tests through test.debug(): another protocol than the model's; decided by the monitors alone
+            ctx.bump("post-mortem-monitor-only")
+            continue
         if stateful(c.world) and c.opts.get("repeat", 1) > 1:
             # outcomes that depend on state surviving the iterations: the model repeats one script per test;
             # such runs are decided by the monitors alone
